@@ -142,14 +142,14 @@ def shape_violation(X0, X1, idx, seed):
     return None
 
 
-def rotation_violation(M):
+def rotation_violation(M, eps=ORACLE_EPS):
     np = np_()
     M = np.asarray(M, dtype=float)
     if M.shape != (3, 3) or not np.isfinite(M).all():
         return "not-finite", f"result is not a finite 3x3 matrix: {M!r}"
-    if np.abs(M @ M.T - np.eye(3)).max() > ORACLE_EPS:
+    if np.abs(M @ M.T - np.eye(3)).max() > eps:
         return "not-orthogonal", f"R R^T differs from I by {np.abs(M @ M.T - np.eye(3)).max():.3e}"
-    if abs(np.linalg.det(M) - 1.0) > ORACLE_EPS:
+    if abs(np.linalg.det(M) - 1.0) > eps:
         return "det-not-1", f"det R = {np.linalg.det(M):.9f}"
     return None
 
@@ -228,7 +228,14 @@ def run_vec(ml, tag, v1, v2, tol):
     f1, f2 = [float(x) for x in v1], [float(x) for x in v2]
     q1, q2 = [fr(x) for x in f1], [fr(x) for x in f2]
     n1, n2 = qsqrt(fdot(q1, q1)), qsqrt(fdot(q2, q2))
-    tolq = fr(TOL_DEFAULT if tol is None else tol)
+    if tol is None:
+        # the model must use the default the code declares (changing it is not a property violation)
+        import inspect
+        d = inspect.signature(rotation_matrix_from_vectors).parameters.get("tol")
+        tol_used = float(d.default) if d is not None and isinstance(d.default, (int, float)) else TOL_DEFAULT
+    else:
+        tol_used = tol
+    tolq = fr(tol_used)
     c = fdot(q1, q2) / (n1 * n2)
     margin = abs(c - (tolq - 1))
     with RandTap() as tap:
@@ -240,15 +247,16 @@ def run_vec(ml, tag, v1, v2, tol):
     anti = c <= tolq - 1
     info = {"branch": "antiparallel" if anti else "general", "margin": float(margin), "one_plus_c": float(1 + c),
             "o_observed": bool(tap.draws)}
-    # oracle
-    viol = rotation_violation(M)
+    # oracle, with the tolerance the model comparison uses: 1e-9, plus the 1/(1+c) amplification of rounding in
+    # the general branch (see eps_amp in Model/Rot.v)
+    eps = 1e-9 if anti else 1e-9 + 1e-14 / float(1 + c)
+    viol = rotation_violation(M, eps)
     if viol is None:
         a = np.array(f1) / np.linalg.norm(f1)
         b = np.array(f2) / np.linalg.norm(f2)
-        # in the general branch close to the threshold rounding is amplified by 1/(1+c) (<= 1e8 * 1e-16)
-        if np.abs(a @ M - b).max() > ORACLE_EPS:
-            viol = ("does-not-map", f"v1/|v1| @ R differs from v2/|v2| by {np.abs(a @ M - b).max():.3e}")
-    if margin < Fr(1, 10 ** 12):
+        if np.abs(a @ M - b).max() > eps:
+            viol = ("does-not-map", f"v1/|v1| @ R differs from v2/|v2| by {np.abs(a @ M - b).max():.3e} (v1={f1}, v2={f2})")
+    if margin < Fr(1, 10 ** 14):
         return None, viol, dict(info, skipped="branch decision within float rounding of the threshold")
     if not np.isfinite(M).all():
         return None, viol, info
@@ -654,10 +662,12 @@ def run_align(ml, name, m0, idxs, ref, vec, repose=None):
     return term, viol, {}, float(r)
 
 
-def run_ens_align(ml, ens0, idxs, ref, vec):
+def run_ens_align(ml, ens0, idxs, ref, vec, repose=None):
     np = np_()
     ens = ml.ConformerEnsemble(ens0)
     ens.coords = np.asarray(ens0.coords, dtype=float).copy()
+    if repose is not None:
+        ens.coords = np.asarray(ens.coords, dtype=float) @ repose[0] + repose[1]
     E0 = np.asarray(ens.coords, dtype=float).copy()
     rec = Recorder()
     try:
@@ -681,6 +691,21 @@ def run_ens_align(ml, ens0, idxs, ref, vec):
     resq = cq_list(cq_list(f"({mq(M.tolist())}, {cq_Q(fr(rr))})" for M, rr in res) for res in per_conf)
     term = (f"(CEnsAlign {ensq(E0.tolist())} {natl(idxs[0])} {resq} {cq_opt(vec, vq)} {ensq(E1.tolist())} "
             f"{cq_list(cq_Q(fr(float(x))) for x in rs)})")
+    if viol is None and repose is None:
+        import random
+        rr = random.Random(len(term))
+        Rp = np.array([[float(e) for e in row] for row in quat_matrix(rr)])
+        tp = np.array([rr.uniform(-5, 5) for _ in range(3)])
+        ens2 = ml.ConformerEnsemble(ens0)
+        ens2.coords = np.asarray(ens0.coords, dtype=float) @ Rp + tp
+        try:
+            rs2 = ens2.align_to_ref_coords(Recorder(), idxs, RefGeom(ref), vec)
+            dev = max(abs(float(x) - float(y)) for x, y in zip(rs, rs2))
+            if dev > ORACLE_EPS:
+                viol = ("align:ensemble-pose-dependent", f"ConformerEnsemble.align_to_ref_coords(core {idxs[0]}) returned {[round(float(x), 6) for x in rs][:3]}..., "
+                        f"but {[round(float(x), 6) for x in rs2][:3]}... after re-posing the same ensemble")
+        except Exception as e:  # noqa
+            viol = ("align:ensemble-raises-" + type(e).__name__, f"ConformerEnsemble.align_to_ref_coords raised {e!r} on a re-posed ensemble")
     return term, viol, {}
 
 
@@ -781,7 +806,10 @@ def run(ctx, rep):
                     "reference Kabsch callback (numpy SVD) used to exercise align_to_ref_coords: its contract is a Section hypothesis"]
     rep.assumptions += ["model vs implementation agree within 1e-9 absolute (1e-9 + 1e-14/(1+c) in the 1/(1+c)-amplified general branch)",
                         "atoms selected by yield_bfs are taken from the implementation (graph search is C15); the oracle recomputes the far side independently",
-                        "arctan2 is not modelled: dihedral()'s result is compared through its sine and cosine"]
+                        "arctan2 is not modelled: dihedral()'s result is compared through its sine and cosine",
+                        "antiparallel branch: the orthogonal vector comes from np.random (hidden state); it is observed through a recording "
+                        "wrapper when the code draws it that way, otherwise only the specification (proper, maps v1 to v2) is checked in Coq; "
+                        "the theorem covers every choice, determinism of the choice is C12"]
     ok, out, where = vlib.build_props(ctx, rep, "C11")
     terms, owners = [], []
     found = False
@@ -831,7 +859,7 @@ def run(ctx, rep):
             if not more:
                 kinds = sorted({items[i][0] for i in unexplained})
                 vlib.broken_obligation(rep, "corr_c11", f"{len(unexplained)} case(s) of kind {kinds} differ from the model by more than the "
-                                       f"stated tolerance, e.g. {json.dumps(items[unexplained[0]][2], default=str)[:600]}", False)
+                                       f"stated tolerance, e.g. {json.dumps(items[unexplained[0]][2], default=str)[:600]}", found)
     if not ok:
         vlib.broken_obligation(rep, "C11_props", f"{where}\n{out[-1500:]}", found)
 
@@ -846,6 +874,8 @@ def neighbourhood(ctx, rd):
         for _ in range(50):
             v1 = [x * r.choice((1, 2, 0.5)) for x in rd["v1"]]
             v2 = [x + r.choice((-1, 0, 1)) for x in rd["v2"]]
+            if not any(v1) or not any(v2):
+                continue
             out += replay(ctx, dict(rd, v1=v1, v2=v2))
             if out:
                 break
